@@ -78,6 +78,38 @@ def cases(ctx):
         own = [b"bigtxt%d" % i] + ([b""] if origin is None else [])
         am[2][rng.choice([1, 2, 3])].append([own, g.IN, g.TXT, 0, None, 120, rds])
         msgs.append(("small-payload", am, origin))
+    # nested chains, shortest suffix first: l1.example., l2.l1.example., ... - every name is one label plus a
+    # pointer to the previous name, so decoding the k-th name follows k pointers (depth 20..120)
+    for i in range(ctx.n(4, 16)):
+        depth = rng.choice([20, 33, 60, 120, rng.randrange(17, 121)])
+        origin = None if rng.random() < 0.8 else [b"example", b""]
+        base = [b"example", b""] if origin is None else []
+        chain = []
+        cur = base
+        for k in range(depth):
+            cur = [bytes([97 + (k * 7 + i) % 26])] + cur
+            chain.append(cur)
+        style = i % 4
+        secs = [[[chain[0] if origin is None else [b"q"], g.IN, g.A, 0, None, 0, []]], [], [], []]
+        if style == 0:       # as owners
+            for k, nmk in enumerate(chain):
+                secs[1 + k % 3 if k > depth // 2 else 1].append([nmk, g.IN, g.A, 0, None, 60, [[bytes([10, 0, k % 256, 1])]]])
+            secs[1].sort(key=lambda rs: len(rs[0])); secs[2].sort(key=lambda rs: len(rs[0])); secs[3].sort(key=lambda rs: len(rs[0]))
+        elif style == 1:     # inside NS rdata of one record set
+            secs[2].append([[b"zone"] + base, g.IN, g.NS, 0, None, 300, [[[0, nmk]] for nmk in chain]])
+        elif style == 2:     # MX / CNAME / SOA rdata, one record set per name
+            for k, nmk in enumerate(chain):
+                own = [b"o%d" % k] + base
+                t = (g.MX, g.CNAME, g.SOA)[k % 3]
+                rd = {g.MX: [struct.pack("!H", k), [0, nmk]], g.CNAME: [[0, nmk]],
+                      g.SOA: [[0, nmk], [0, nmk], struct.pack("!IIIII", k, 1, 2, 3, 4)]}[t]
+                secs[1].append([own, g.IN, t, 0, None, 60, [rd]])
+        else:                # owners and rdata interleaved, with case variants
+            for k, nmk in enumerate(chain):
+                tgt = chain[k - 1] if k else nmk
+                secs[3].append([[x.upper() if (k % 5 == 0) else x for x in nmk], g.IN, g.NS, 0, None, 60, [[[0, tgt]]]])
+        opt = rng.choice([None, [0, 1232, []]])
+        msgs.append(("chain", [rng.randrange(65536), 0x8400, secs, opt, None], origin))
     for kind, am, origin in msgs:
         ctx.count("msg:" + kind)
         pad = 0
